@@ -182,7 +182,10 @@ def sample_names(r, k: int, candidate: bool):
 
 
 TEXTS = ["the alpha thing", "dataset name", "learning rate used", "a thing", "some text here", "flag for verbosity", "Random seed",
-         "e.g. 5", "has [brackets] inside", "PK of nothing", "etc. and so on", "x", "naïve café – ünï", "it's 'quoted' inside", "100% of a/b"]
+         "e.g. 5", "has [brackets] inside", "PK of nothing", "etc. and so on", "x", "naïve café – ünï", "it's 'quoted' inside", "100% of a/b",
+         ]
+# column descriptions that merely MENTION a default or a key marker (neither announces a default of this column nor makes it a key)
+MENTION_TEXTS = ["the size; the loader defaults to 3 workers", "joined with the [PK] column of users", "see the [PK] note"]
 FK_TARGETS = ["user.id", "tbl.col", "other_table.dataset_name", "t.c"]
 HEADER_DOCS = ["", "Summary line.", "Summary line.\n\nLonger description here.", "A table of things", "  indented start"]
 _SECTION_WORDS = re.compile(r"^\s*(:?(param|type|return|returns|rtype|raises|arg|args|arguments|parameters|yields|yield|attributes|example|examples|note|notes|kwargs|keyword)\b)", re.I)
@@ -208,7 +211,7 @@ assert all(prose_only(d) for d in HEADER_DOCS), "header docs must stay prose (se
 def gen_doc_dom(r, allow_pk):
     """(doc or None, marker kind)"""
     k = r.random()
-    text = r.choice(TEXTS) + ("." if r.random() < 0.25 else "")
+    text = r.choice(TEXTS + MENTION_TEXTS) + ("." if r.random() < 0.25 else "")
     if k < 0.12:
         return None, "absent"
     if k < 0.17:
